@@ -37,7 +37,7 @@ fn split_blocks(text: &str) -> Vec<String> {
     let mut n_in_block = 0usize;
     for line in text.lines() {
         let head = line.split(' ').next().unwrap_or("");
-        let is_input = matches!(head, "dec" | "txt" | "json" | "jsondoc" | "decmany" | "declist" | "nid" | "ck");
+        let is_input = matches!(head, "dec" | "txt" | "json" | "jsondoc" | "decmany" | "declist" | "nid" | "ck" | "race");
         if is_input {
             let buf = if head == "dec" {
                 // keep the item and its suffixed variants together (prefix locality needs both)
@@ -186,6 +186,15 @@ fn main() {
                     std::process::exit(2);
                 }
             };
+            let mut parts = parts;
+            if fam == "hist" {
+                // several nodes updating their own records at the same time, per key type
+                let mut s = String::new();
+                for scheme in ["k256", "libsecp", "ed", "comb"] {
+                    race_under(scheme, &mut s);
+                }
+                parts.push(s);
+            }
             write_chunks(prefix, chunks, parts);
         }
         "replay" => {
@@ -227,6 +236,7 @@ fn main() {
                             gen_dec::alt_under(get("scheme"), &unhx(get("in")), &mut out);
                         }
                     }
+                    "race" => race_under(get("scheme"), &mut out),
                     "nid" => gen_misc::nid_exec(get("op"), &unhx(get("in")), &mut out),
                     "ck" => gen_misc::ck_line(get("kind"), &unhx(get("in")), &mut out),
                     "decmany" | "declist" => {
